@@ -208,6 +208,27 @@ def run(ctx):
                     l, r = (_json.dumps(PC.expr(body, defs, st[2][k])) for k in (2, 3))
                     if "Vec::<T, A>::len" in l and "Vec::<T, A>::len" in r and ("split_whitespace" in l + r or "split_ascii_whitespace" in l + r):
                         len_cmp = True
+        # the count comparison comes first: an emptiness test of the filtered list that is not behind it also fires for a `class` value that had no token
+        # to begin with (`class=""`), and removes an attribute from which nothing was filtered
+        cfg_ = M.Cfg(body)
+        cmp_blocks = []
+        for bi_, b in enumerate(body["blocks"]):
+            for st in b["s"]:
+                if st[0] == "=" and st[2][0] == "bin" and st[2][1] in ("Eq", "Ne"):
+                    l, r = (_json.dumps(PC.expr(body, defs, st[2][k])) for k in (2, 3))
+                    if "Vec::<T, A>::len" in l and "Vec::<T, A>::len" in r:
+                        cmp_blocks.append(bi_)
+        early_empty = []
+        for bi_, c in M.calls(body):
+            if M.callee_name(c).endswith("Vec::<T, A>::is_empty") and c["args"]:
+                a_ = _json.dumps(PC.expr(body, defs, c["args"][0]))
+                if ("split_whitespace" in a_ or "split_ascii_whitespace" in a_ or "retain" in a_ or "collect" in a_) and \
+                   not any(cb != bi_ and cfg_.dominates(cb, bi_) for cb in cmp_blocks):
+                    early_empty.append(c["line"])
+        if early_empty and cmp_blocks:
+            ctx.violation("C15.class-untouched", "C15.class-untouched:empty-before-count", w.where(mainc, early_empty[0]),
+                          "the filtered class list is tested for emptiness before the token count is compared with the original count: a `class` attribute without any "
+                          "token (`class=\"\"`) is removed although nothing was filtered - an already clean document is changed")
         joined_compared = []
         for bi, c in M.calls(body):
             n = M.callee_name(c)
